@@ -33,7 +33,7 @@ def main():
         out["demo_with"] = sh(["/venv/bin/python", demo], cwd=wt, env=env, timeout=600)[0]
         for p in props:
             e = dict(os.environ, PVX_REPO=wt, PVX_NO_EVIDENCE="1")
-            rc, o = sh(["python3-vt", "-m", "pvx.run", p, "--tier", tier], cwd="/verif", env=e, timeout=7200)
+            rc, o = sh(["python3-vt", "-m", "pvx.run", p, "--tier", tier], cwd=os.environ.get("PVX_VERIF", "/verif"), env=e, timeout=7200)
             labels = sorted(set(re.findall(r"^  label=(\S+)", o, re.M)))
             known = sorted(set(re.findall(r"^KNOWN-FINDING: property=\S+ (\S+)", o, re.M)))
             inc = len(re.findall(r"^INCONCLUSIVE", o, re.M))
